@@ -24,6 +24,7 @@ Open Scope Z_scope.
 
 Inductive op :=
 | OSub (p : bool)     (* Subscribe a new channel; its consumer reads promptly (true) or on command *)
+| OSubDone (p : bool) (* Subscribe a new channel with a context that has ALREADY ended *)
 | OBatch (k : Z)      (* Batch(k, v) where v = the step number of this op *)
 | OAdv (d : Z)        (* the clock advances by d > 0 *)
 | OAdvBatch (d k : Z) (* the clock advances by d > 0 and Batch(k, v) is called AT ONCE, without
@@ -73,14 +74,23 @@ Definition due (v : Z) : Z := time_after v + iv.
 
 (* subscribers, in the order of the Subscribe calls: (step of the call, prompt consumer) *)
 Definition subscribers : list (Z * bool) :=
-  flat_map (fun e => match snd e with OSub p => [(fst e, p)] | _ => [] end) isc.
+  flat_map (fun e => match snd e with OSub p | OSubDone p => [(fst e, p)] | _ => [] end) isc.
+(* the subscribers whose context had ended before Subscribe was called: their Subscribe steps *)
+Definition born_done : list Z :=
+  flat_map (fun e => match snd e with OSubDone _ => [fst e] | _ => [] end) isc.
 Definition isubs : list (Z * (Z * bool)) := zindex subscribers.
 
 Definition first_step (f : op -> bool) : option Z :=
   match find (fun e => f (snd e)) isc with Some e => Some (fst e) | None => None end.
 
+(* the step at which subscriber i's context ended: its own Subscribe step if it was born ended *)
 Definition cancel_step (i : Z) : option Z :=
-  first_step (fun o => match o with OCancel j => j =? i | _ => false end).
+  match find (fun e => fst e =? i) isubs with
+  | Some (_, (p, _)) =>
+      if existsb (Z.eqb p) born_done then Some p
+      else first_step (fun o => match o with OCancel j => j =? i | _ => false end)
+  | None => first_step (fun o => match o with OCancel j => j =? i | _ => false end)
+  end.
 Definition readall_step (i : Z) : option Z :=
   first_step (fun o => match o with OReadAll j => j =? i | _ => false end).
 Definition close_step : option Z :=
@@ -114,7 +124,7 @@ Definition memZ (x : Z) (l : list Z) : bool := existsb (Z.eqb x) l.
 
 Definition is_call (c : Z) : bool :=
   match nth_error sc (Z.to_nat c) with
-  | Some (OSub _) | Some (OBatch _) | Some (OAdvBatch _ _) | Some OClose => (0 <=? c)
+  | Some (OSub _) | Some (OSubDone _) | Some (OBatch _) | Some (OAdvBatch _ _) | Some OClose => (0 <=? c)
   | _ => false
   end.
 
@@ -343,12 +353,44 @@ Definition s_close : Prop :=
        forall x, (if pr then Some p else readall_step i) = Some x ->
          exists y, closed_step i = Some y /\ y <= Z.max d x).
 
+(* 8. a subscriber whose context has ended — before, during or after its Subscribe call — gets its
+      channel closed: for a subscription that was certainly accepted (its Subscribe returned, and
+      did so before the first Close call if there is one) and whose consumer is reading, at every
+      step from then on at which back-pressure from a live stalled subscriber is impossible the
+      consumer has seen the closure. *)
+Definition reader_start (e : Z * (Z * bool)) : option Z :=
+  if snd (snd e) then Some (fst (snd e)) else readall_step (fst e).
+Definition accepted_for_sure (p : Z) : bool :=
+  match done_step p with
+  | Some q => match close_step with Some c0 => q <? c0 | None => true end
+  | None => false
+  end.
+Definition depart_ok (e : Z * (Z * bool)) : bool :=
+  match cancel_step (fst e), reader_start e, done_step (fst (snd e)) with
+  | Some x, Some y, Some q =>
+      if accepted_for_sure (fst (snd e)) then
+        let t := Z.max x (Z.max y q) in
+        forallb (fun r => if t <=? r then
+                            if may_block r then true
+                            else match closed_step (fst e) with Some z => z <=? r | None => false end
+                          else true) steps
+      else true
+  | _, _, _ => true
+  end.
+Definition o_depart : bool := forallb depart_ok isubs.
+Definition s_depart : Prop :=
+  forall e, In e isubs ->
+    forall x y q, cancel_step (fst e) = Some x -> reader_start e = Some y ->
+      done_step (fst (snd e)) = Some q -> accepted_for_sure (fst (snd e)) = true ->
+      forall r, In r steps -> Z.max x (Z.max y q) <= r -> may_block r = false ->
+        exists z, closed_step (fst e) = Some z /\ z <= r.
+
 Definition oracle : bool :=
   o_valid && o_once && o_not_early && o_suppress && o_due_order && o_same_order && o_no_hole
-  && o_no_wedge && o_complete && o_close.
+  && o_no_wedge && o_complete && o_close && o_depart.
 
 Definition spec : Prop :=
   s_valid /\ s_once /\ s_not_early /\ s_suppress /\ s_due_order /\ s_same_order /\ s_no_hole
-  /\ s_no_wedge /\ s_complete /\ s_close.
+  /\ s_no_wedge /\ s_complete /\ s_close /\ s_depart.
 
 End Spec.
